@@ -509,7 +509,7 @@ func (c *child) setup() error {
 			return dl.DialContext(ctx, "unix", c.sock)
 		},
 		MaxIdleConnsPerHost: 16,
-	}, Timeout: 120 * time.Second} // longer than the watchdog's suspicion + confirmation window
+	}, Timeout: 180 * time.Second} // longer than the watchdog's suspicion + confirmation window
 	return nil
 }
 
@@ -548,6 +548,7 @@ func (c *child) mkSide(p *sideDB) *litestream.DB {
 	s := c.spec
 	db := litestream.NewDB(p.path)
 	db.MonitorInterval = time.Duration(s.MonMs) * time.Millisecond
+	db.MinCheckpointPageN = 2 // so that the final sync inside Close checkpoints (and re-takes the read lock under Close's context)
 	db.BusyTimeout = 200 * time.Millisecond
 	db.ShutdownSyncTimeout = 0
 	db.Logger = discard
@@ -575,7 +576,7 @@ func (c *child) dumpStacks(name string) string {
 }
 
 const (
-	suspectAfter = 40 * time.Second
+	suspectAfter = 90 * time.Second
 	confirmAfter = 10 * time.Second
 )
 
@@ -963,10 +964,13 @@ func (c *child) run(fin *Final) {
 	c.hc.CloseIdleConnections()
 	var cerr error
 	{
-		ctx, cancel := ctxT(60 * time.Second)
+		// The caller's context stays alive until after the probes: database/sql
+		// rolls a transaction back by itself when the context it was begun
+		// under is cancelled, which would hide a read lock that Close forgot.
+		ctx, cancel := ctxT(10 * time.Minute)
+		defer cancel()
 		e := Event{G: g.id, Op: "Store.Close", Note: "final"}
 		cerr = c.do(g, &e, func() error { return c.st.Close(ctx) })
-		cancel()
 	}
 	fl := map[string]int{}
 	for _, d := range c.st.DBs() {
@@ -1365,7 +1369,16 @@ func (c *child) burst(g *gctx, p *sideDB, probe bool) {
 	// let a duplicate instance, if any, initialise (its monitor takes the read lock)
 	time.Sleep(time.Duration(15+g.rng.Intn(30)) * time.Millisecond)
 	c.listing(g, "Store.DBs")
-	ctx, cancel := ctxT(15 * time.Second)
+	// fresh application commits, so that Close has something to sync and checkpoint
+	if d, err := sql.Open("sqlite", appDSN(p.path, 2000, 0, false)); err == nil {
+		d.SetMaxOpenConns(1)
+		for i := 0; i < 3; i++ {
+			_, _ = d.Exec(`INSERT INTO t0(v) VALUES(randomblob(5000))`)
+		}
+		_, _ = d.Exec(`DELETE FROM t0 WHERE id < (SELECT max(id) FROM t0) - 20`)
+		_ = d.Close()
+	}
+	ctx, cancel := ctxT(10 * time.Minute) // alive until after the probe (see Store.Close below)
 	op := "UnregisterDB"
 	if g.rng.Intn(2) == 0 {
 		cancel()
